@@ -236,6 +236,8 @@ def declare(spec, cfg, poly=False, ocp=None, stage=None, with_method=True, paren
         for gi, (r, c) in enumerate(state_groups(spec)):
             rhs = [mx(e) for e in spec.ode[i:i + r * c]]
             rhs = rhs[0] if r * c == 1 else ca.reshape(ca.vcat(rhs), r, c)
+            if getattr(spec, 'ode_broadcast', None) and gi in spec.ode_broadcast:
+                rhs = mx(spec.ode_broadcast[gi])        # one scalar for the whole vector-valued state
             kw = {}
             if spec.derscale is not None:
                 sl = [float(v) for v in spec.derscale[i:i + r * c]]
